@@ -66,3 +66,64 @@ func H04a_unsuback()    { vrtAccept(11, "N04a", 10) }
 func H04a_pingreq()     { vrtAccept(12, "N04a", 10) }
 func H04a_pingresp()    { vrtAccept(13, "N04a", 10) }
 func H04a_disconnect()  { vrtAccept(14, "N04a", 10) }
+
+// H04b: acceptance at the sizes where the remaining-length field grows
+// (127/128 and 16383/16384): a long concrete filler plus a short symbolic
+// tail element, so that the packet's remaining length takes every value
+// around the boundary; the library must decode the same fields and size as
+// the reference decoder.
+func vrtLargePacket(typ byte) *specPkt {
+	targets := []int{126, 127, 128, 129, 130, 16382, 16383, 16384, 16385}
+	R := targets[vrtChoice("remlen", len(targets))]
+	L := 1 + vrtChoice("taillen", 3) // the last element: 1..3 bytes
+	tail := vrtBytesN("tail", L)
+	for _, b := range tail {
+		vrtAssume(vrtAnd(b != '#', vrtAnd(b != '+', vrtAnd(b != '/', vrtAnd(b != 0, b < 0x80)))))
+	}
+	pad := func(n int) []byte {
+		p := make([]byte, n)
+		for i := range p {
+			p[i] = 'a' + byte(i%26)
+		}
+		return p
+	}
+	switch typ {
+	case 3: // PUBLISH QoS 1: 2+topic + 2 + payload
+		return &specPkt{Typ: 3, Flags: 2, ID: 7, Topic: pad(R - 4 - L), Payload: tail}
+	case 8: // SUBSCRIBE: 2 + (2+P+1) + (2+L+1)
+		return &specPkt{Typ: 8, ID: 7, Topics: [][]byte{pad(R - 8 - L), tail}, QoS: []byte{1, 2}}
+	case 9: // SUBACK: 2 + R-2 return codes
+		codes := make([]byte, R-2)
+		for i := range codes {
+			codes[i] = byte(i % 3)
+		}
+		codes[len(codes)-1] = vrtIteByte(vrtBool("lastfail"), 0x80, 1)
+		return &specPkt{Typ: 9, ID: 7, Codes: codes}
+	default: // UNSUBSCRIBE: 2 + (2+P) + (2+L)
+		return &specPkt{Typ: 10, ID: 7, Topics: [][]byte{pad(R - 6 - L), tail}}
+	}
+}
+
+func vrtAcceptLarge(typ byte) {
+	p := vrtLargePacket(typ)
+	buf := specEncode(p)
+	m := vrtNewOf(typ)
+	n, err := m.Decode(buf)
+	vrtAssert("C04.accepts_wellformed", err == nil)
+	if err != nil {
+		return
+	}
+	vrtAssert("C04.accept_size", n == len(buf))
+	vrtAssert("C04.accept_fields", vrtFieldsEq(m, p))
+	// and the way back: the decoded message encodes to the same bytes
+	out := make([]byte, len(buf)+1)
+	n2, err2 := m.Encode(out)
+	vrtAssert("C04.large_reencode", err2 == nil && n2 == len(buf))
+	vrtAssert("C04.large_len", m.Len() == len(buf))
+	vrtReach("C04.large")
+}
+
+func H04b_publish_large()     { vrtAcceptLarge(3) }
+func H04b_subscribe_large()   { vrtAcceptLarge(8) }
+func H04b_suback_large()      { vrtAcceptLarge(9) }
+func H04b_unsubscribe_large() { vrtAcceptLarge(10) }
